@@ -1,5 +1,8 @@
 """C07 request-body channel: exact bytes, truthful ending, no lost wake-ups."""
 import json
+import os
+import re
+import subprocess
 import random
 
 import vlib
@@ -64,6 +67,43 @@ def corrupt_bytes(ev):
     return None
 
 
+def apalache(workdir, module_path, init, length, tag):
+    out = os.path.join(workdir, "apalache-" + tag)
+    os.makedirs(out, exist_ok=True)
+    cmd = ["apalache-mc", "check", "--out-dir=" + out, "--cinit=ConstInit", "--init=" + init, "--inv=IndInv", "--length=%d" % length,
+           os.path.basename(module_path)]
+    try:
+        p = subprocess.run(cmd, cwd=os.path.dirname(module_path), stdout=subprocess.PIPE, stderr=subprocess.STDOUT, text=True, timeout=1800)
+    except subprocess.TimeoutExpired:
+        raise vlib.ToolError("apalache timed out (%s)" % tag)
+    m = re.search(r"The outcome is: (\w+)", p.stdout)
+    return m.group(1) if m else "none(rc=%d)" % p.returncode
+
+
+def inductive(rep):
+    """Unbounded histories: Apalache shows IndInv of PayloadInd (the wake-up and truthful-ending clauses over an abstraction of
+    PayloadMC) inductive; a mutant that does not store the reader's waker on Pending must be refuted (non-vacuity)."""
+    src = os.path.join(vlib.SPEC, AREA, "PayloadInd.tla")
+    base = apalache(rep.workdir, src, "Init", 0, "init")
+    step = apalache(rep.workdir, src, "IndInit", 1, "step")
+    mdir = os.path.join(rep.workdir, "apalache-mutant")
+    os.makedirs(mdir, exist_ok=True)
+    text = open(src).read()
+    needle = "/\\ needRead' = TRUE /\\ task' = TRUE /\\ ioTask' = FALSE"
+    if needle not in text:
+        raise vlib.ToolError("PayloadInd: mutation point not found")
+    mpath = os.path.join(mdir, "PayloadIndMut.tla")
+    open(mpath, "w").write(text.replace(needle, "/\\ needRead' = TRUE /\\ task' = task /\\ ioTask' = FALSE").replace("MODULE PayloadInd ", "MODULE PayloadIndMut "))
+    mut = apalache(rep.workdir, mpath, "IndInit", 1, "mutant-out")
+    rep.cov["inductive_invariant"] = {"tool": "apalache-mc 0.58", "module": "spec/payload/PayloadInd.tla", "Init=>IndInv": base,
+                                      "IndInv/\\Next=>IndInv'": step, "mutant_without_reader_waker": mut}
+    if base != "NoError" or step != "NoError":
+        raise vlib.ToolError("PayloadInd: IndInv is not inductive (init=%s step=%s)" % (base, step))
+    if mut != "Error":
+        raise vlib.ToolError("PayloadInd: the mutant was not refuted (%s): the invariant is vacuous" % mut)
+    print("[apalache] PayloadInd: IndInv inductive (init %s, step %s); mutant refuted" % (base, step))
+
+
 def run(rep):
     quick = rep.tier == "quick"
     ar = vlib.Area(rep, AREA, "PayloadTrace")
@@ -91,6 +131,8 @@ def run(rep):
     ar.run_cases(rc, "rand")
     ar.selftest(tpath, corrupt, "FeedData.dr := 0 while the reader is parked")
     ar.selftest(tpath, corrupt_bytes, "Poll chunk run length + 1")
+    if not quick:
+        inductive(rep)
     rep.assumptions += ["chunk contents are the chunk id repeated; the reader's data is run-length decoded by the harness",
                         "PayloadSender / PayloadStatus are reachable only through Payload::create (types not nameable outside the crate)"]
 
